@@ -90,6 +90,40 @@ structure SkelShape where
   texts : List (String × List String)
   deriving Repr, DecidableEq
 
+/-! ### arithmetic expressions of `_series_merge_properties` / `_parallel_merge_properties`, regenerated from the source -/
+
+/-- `var`: an attribute of `pipe0`, `pipe1` or the dominant pipe (`"pipe0.length"`, `"dominant.diameter"`, …); `lit n d`: the
+decimal literal `n/d` (`4.87` = `lit 487 100`) -/
+inductive MX where
+  | var (name : String)
+  | lit (num den : Nat)
+  | add (a b : MX)
+  | sub (a b : MX)
+  | mul (a b : MX)
+  | div (a b : MX)
+  | neg (a : MX)
+  | pow (a b : MX)
+  deriving Repr, DecidableEq
+
+def MX.eval {α : Type} [Add α] [Sub α] [Mul α] [Div α] [Neg α] (pw : α → α → α) (litv : Nat → Nat → α) (env : String → α) : MX → α
+  | .var n => env n
+  | .lit n d => litv n d
+  | .add a b => a.eval pw litv env + b.eval pw litv env
+  | .sub a b => a.eval pw litv env - b.eval pw litv env
+  | .mul a b => a.eval pw litv env * b.eval pw litv env
+  | .div a b => a.eval pw litv env / b.eval pw litv env
+  | .neg a => - a.eval pw litv env
+  | .pow a b => pw (a.eval pw litv env) (b.eval pw litv env)
+
+/-- the `props` dictionary of one of the two functions (`props[...]` references inlined) -/
+structure MergeMX where
+  length : MX
+  diam : MX
+  minor : MX
+  status : String
+  rough : MX
+  deriving Repr, DecidableEq
+
 /-- the shape of `_split_or_break_pipe` at /repo HEAD 14495b3c (after 8195887e: new pipe open, no minor loss, no check valve) -/
 def codeSplitShape : SplitShape :=
   { newPipe := { diam := .orig, rough := .orig, minor := .zero, status := .one, cv := .no },
